@@ -213,17 +213,24 @@ def stage_ind(run, st):
         cmd = ['apalache-mc', 'check', '--config=' + c, '--out-dir=' + od] + args + [st['module'] + '.tla']
         try:
             p = subprocess.run(cmd, cwd=wd, capture_output=True, text=True, timeout=st.get('timeout', 600), stdin=subprocess.DEVNULL)
-        except subprocess.TimeoutExpired:
-            raise Infra('apalache timeout: ' + ' '.join(cmd))
+        except (subprocess.TimeoutExpired, OSError) as ex:
+            return name, ' '.join(cmd[:2] + args), None, 'apalache-mc could not be run: %r' % (ex,)
         out = p.stdout + p.stderr
         ok = 'The outcome is: NoError' in out
         err = 'The outcome is: Error' in out and 'invariant' in out and 'violated' in out
         if not (ok or err):
-            raise Infra('apalache did not reach a verdict (%s):\n%s' % (' '.join(cmd), out[-2500:]))
+            return name, ' '.join(cmd[:2] + args), None, out[-600:]
         return name, ' '.join(cmd[:2] + args), ok, want
 
     with cf.ThreadPoolExecutor(max_workers=5) as ex:
         res = list(ex.map(one, obl))
+    broken = [r for r in res if r[2] is None]
+    if broken:
+        # the tool itself did not run to a verdict (not installed, solver missing ...): the unbounded argument is an ADDITION to the
+        # bounded TLC runs of the same module, so its absence is reported, not fatal
+        run.notes.append('inductive stage %s skipped: apalache-mc reached no verdict (%s)' % (st['name'], broken[0][3].strip().splitlines()[-1] if broken[0][3].strip() else 'no output'))
+        log('[ind %s] SKIPPED: apalache-mc reached no verdict' % st['name'])
+        return
     for name, cmd, ok, want in res:
         if ok != want:
             raise Infra('inductive argument %s: obligation "%s" %s (a specification error, not a verdict about the code)'
